@@ -93,7 +93,8 @@ CALL_RAISES: Dict[str, FrozenSet[str]] = {
     'asyncio.run_coroutine_threadsafe': frozenset({'RuntimeError'}),
     'os.open': frozenset({'OSError'}),
     'os.close': frozenset({'OSError'}),
-    'fcntl.flock': frozenset({'OSError'}),
+    'fcntl.flock': frozenset({'OSError', 'KeyboardInterrupt'}),   # a blocking flock can be interrupted by a signal
+    'time.sleep': frozenset({'KeyboardInterrupt'}),                 # ... and so can a sleep (main thread)
     'fcntl.lockf': frozenset({'OSError'}),
     'msvcrt.locking': frozenset({'OSError'}),
     'builtins.__import__': frozenset({'ImportError'}),
@@ -142,7 +143,7 @@ TOTAL_CALLS = {
     'builtins.id', 'builtins.callable', 'builtins.str', 'builtins.set',
     'builtins.frozenset', 'builtins.dict', 'builtins.list', 'builtins.tuple',
     'builtins.range', 'builtins.iter', 'builtins.map', 'builtins.object',
-    'time.time', 'time.sleep', 'asyncio.Event', 'asyncio.Queue',
+    'time.time', 'asyncio.Event', 'asyncio.Queue',
     'threading.Lock', 'threading.RLock', 'functools.partial',
 }
 
